@@ -21,9 +21,13 @@ pub enum ElemTy {
     Keyed,
     /// Option<N64>: None is encoded as the canonical NaN bit pattern
     OptN64,
+    /// heap-allocated integer: an element type with drop glue
+    Boxed,
+    /// a 96-byte element without drop glue
+    Fat,
 }
 
-pub const ALL_ELEMS: [ElemTy; 12] = [
+pub const ALL_ELEMS: [ElemTy; 14] = [
     ElemTy::I8,
     ElemTy::I32,
     ElemTy::I64,
@@ -36,6 +40,8 @@ pub const ALL_ELEMS: [ElemTy; 12] = [
     ElemTy::OptU8,
     ElemTy::Keyed,
     ElemTy::OptN64,
+    ElemTy::Boxed,
+    ElemTy::Fat,
 ];
 
 impl ElemTy {
@@ -53,6 +59,8 @@ impl ElemTy {
             ElemTy::OptU8 => "Option<u8>",
             ElemTy::Keyed => "Keyed",
             ElemTy::OptN64 => "Option<N64>",
+            ElemTy::Boxed => "Boxed(Box<i64>)",
+            ElemTy::Fat => "Fat(96 bytes)",
         }
     }
     pub fn from_name(s: &str) -> Option<ElemTy> {
@@ -73,7 +81,16 @@ impl ElemTy {
             ElemTy::U8 | ElemTy::OptU8 => (0, u8::MAX as i128),
             ElemTy::U64 => (0, u64::MAX as i128),
             ElemTy::Keyed => (-1000, 1000),
+            ElemTy::Boxed | ElemTy::Fat => (-(1i128 << 40), 1i128 << 40),
             _ => (-(1i128 << 53), 1i128 << 53),
+        }
+    }
+    /// largest difference of two values the element type's own subtraction can represent
+    pub fn spread_max(self) -> i128 {
+        match self {
+            ElemTy::Boxed | ElemTy::Fat => i64::MAX as i128,
+            ElemTy::Keyed => i32::MAX as i128,
+            _ => self.int_range().1,
         }
     }
     /// raw encoding of the missing value (only for MaybeNan types)
